@@ -892,7 +892,7 @@ Section CGProofs.
     (out_iter o = 0%Z \/ out_err o = norm (out_r o) / bnrm) /\
     (iter <= out_iter o <= iter + Z.of_nat fuel)%Z /\
     (fuel <> 0%nat -> iter < out_iter o)%Z /\
-    ((out_iter o < iter + Z.of_nat fuel)%Z -> out_err o <= tol) /\
+    ((out_iter o < iter + Z.of_nat fuel)%Z -> out_err o <= tol \/ out_err o = 0) /\
     (out_iter o = iter -> forall q, out_x o q = x q).
   Proof.
     induction fuel as [|fuel IH]; intros iter x r p bkden err Hres Herr; cbv zeta.
@@ -900,6 +900,11 @@ Section CGProofs.
       repeat split; auto; try lia.
     - cbn [cg_loop].
       set (bknum := vdot Rops P pts r r).
+      destruct (neqb Rops bknum (n0 Rops)) eqn:Eb0.
+      { cbn [neqb n0 Rops] in Eb0. apply Reqb_true in Eb0. unfold out_x, out_r, out_iter, out_err. cbn [fst snd].
+        assert (Hn0 : norm r = 0) by (unfold l2norm; fold bknum; rewrite Eb0; cbn [nsqrt Rops]; apply sqrt_0).
+        repeat split; auto; try lia; try (intros _; right; reflexivity).
+        right. rewrite Hn0. cbn [n0 Rops]. unfold Rdiv. ring. }
       set (p' := if (iter + 1 =? 1)%Z then tabR r else tabR (fun q => nadd Rops (nmul Rops (ndiv Rops bknum bkden) (p q)) (r q))).
       set (z := tabR (A p')).
       set (ak := ndiv Rops bknum (vdot Rops P pts z p')).
@@ -927,7 +932,7 @@ Section CGProofs.
     is_residual b (out_x o) (out_r o) /\
     (0 <= out_iter o <= Z.of_nat itmax)%Z /\
     ((1 <= out_iter o)%Z -> out_err o = norm (out_r o) / norm b /\ 0 < norm b) /\
-    ((1 <= out_iter o < Z.of_nat itmax)%Z -> out_err o <= tol) /\
+    ((1 <= out_iter o < Z.of_nat itmax)%Z -> out_err o <= tol \/ out_err o = 0) /\
     (out_iter o = 0%Z -> forall q, out_x o q = x0 q).
   Proof.
     cbv zeta. unfold cg_solve.
@@ -996,6 +1001,12 @@ Section CGProofs.
     rewrite El. cbn [cg_loop].
     change (0 + 1 =? 1)%Z with true. cbv iota.
     set (bknum := vdot Rops P pts r0 r0).
+    assert (Eb0 : neqb Rops bknum (n0 Rops) = false).
+    { cbn [neqb n0 Rops]. destruct (Reqb' bknum 0) eqn:E; [|reflexivity]. apply Reqb_true in E. exfalso.
+      unfold bknum in E. rewrite vdot_eq in E.
+      rewrite (lsumR_ext _ (fun q => b q * b q)) in E by (intros q Hq; rewrite Hr0 by auto; reflexivity).
+      rewrite norm_eq in Hb. rewrite E, sqrt_0 in Hb. lra. }
+    rewrite Eb0.
     set (p' := tabR r0).
     set (z := tabR (A p')).
     set (ak := ndiv Rops bknum (vdot Rops P pts z p')).
@@ -1047,6 +1058,112 @@ Section CGProofs.
   Proof. rewrite ip_comm, ip_add_l, (ip_comm u w), (ip_comm v w). reflexivity. Qed.
   Lemma ip_zero_l u v : (forall q, In q pts -> u q = 0) -> ip u v = 0.
   Proof. intros H. rewrite <- (lsumR_zero pts). apply lsumR_ext. intros q Hq. rewrite H by auto. ring. Qed.
+
+  (* ------------------------------------------------------------ scale covariance: right-hand side and initial guess
+     multiplied by c <> 0  =>  same iteration count, same reported error, solution and residual multiplied by c
+     (the stopping criterion is relative).  The only absolute quantity in the solver is EPS = 1e-14 below which |b| is
+     treated as zero: both |b| and |c b| are assumed to be above it. *)
+  Lemma A_zero p : In p pts -> A (fun _ => 0) p = 0.
+  Proof.
+    intros Hp. pose proof (A_linear (fun _ => 0) (fun _ => 0) (-1) p) as L. cbv beta in L.
+    assert (E : A (fun _ : P => 0 + -1 * 0) p = A (fun _ => 0) p) by (apply A_ext; auto; intros; ring).
+    rewrite E in L. lra.
+  Qed.
+  Lemma A_scal c f p : In p pts -> A (fun q => c * f q) p = c * A f p.
+  Proof.
+    intros Hp. rewrite (A_ext (fun q => c * f q) (fun q => 0 + c * f q) p Hp) by (intros; ring).
+    rewrite (A_linear (fun _ => 0) f c p), A_zero by auto. ring.
+  Qed.
+  Lemma norm_scal c u : norm (fun q => c * u q) = Rabs c * norm u.
+  Proof.
+    rewrite !norm_eq. rewrite (lsumR_ext _ (fun q => (c * c) * (u q * u q))) by (intros; ring).
+    rewrite lsumR_scal. rewrite sqrt_mult; [|apply sq_nonneg | apply lsumR_nonneg; intros; apply sq_nonneg].
+    f_equal. change (c * c) with (Rsqr c). apply sqrt_Rsqr_abs.
+  Qed.
+  Lemma div_scal2 c a d : c <> 0 -> (c * c * a) / (c * c * d) = a / d.
+  Proof.
+    intros Hc. unfold Rdiv. rewrite !Rinv_mult.
+    replace (c * c * a * (/ c * / c * / d)) with ((c * / c) * (c * / c) * (a * / d)) by ring.
+    rewrite Rinv_r by auto. ring.
+  Qed.
+  Lemma div_scal1 c a d : c <> 0 -> (c * a) / (c * d) = a / d.
+  Proof.
+    intros Hc. unfold Rdiv. rewrite Rinv_mult.
+    replace (c * a * (/ c * / d)) with ((c * / c) * (a * / d)) by ring.
+    rewrite Rinv_r by auto. ring.
+  Qed.
+
+  Definition eqc (c : R) (u' u : P -> R) : Prop := forall q, In q pts -> u' q = c * u q.
+
+  Lemma ip_eqc c u' u v' v : eqc c u' u -> eqc c v' v -> ip u' v' = c * c * ip u v.
+  Proof.
+    intros Hu Hv. rewrite <- lsumR_scal. apply lsumR_ext. intros q Hq. rewrite (Hu q Hq), (Hv q Hq). ring.
+  Qed.
+
+  Lemma cg_loop_scal c bnrm tol : c <> 0 -> forall fuel iter x r p bkden err x' r' p' bkden',
+    eqc c x' x -> eqc c r' r -> (iter = 0%Z \/ (eqc c p' p /\ bkden' = c * c * bkden)) ->
+    let o := cg_loop Rops P peqb pts A fuel bnrm tol iter x r p bkden err in
+    let o' := cg_loop Rops P peqb pts A fuel (Rabs c * bnrm) tol iter x' r' p' bkden' err in
+    out_iter o' = out_iter o /\ out_err o' = out_err o /\ eqc c (out_x o') (out_x o) /\ eqc c (out_r o') (out_r o).
+  Proof.
+    intros Hc. induction fuel as [|fuel IH]; intros iter x r p bkden err x' r' p' bkden' Hx Hr Hp; cbv zeta.
+    - cbn [cg_loop]. unfold out_iter, out_err, out_x, out_r. cbn [fst snd]. auto.
+    - cbn [cg_loop].
+      set (bknum := vdot Rops P pts r r). set (bknum' := vdot Rops P pts r' r').
+      assert (Ebk : bknum' = c * c * bknum) by (unfold bknum, bknum'; rewrite !vdot_eq; apply ip_eqc; auto).
+      assert (Eb0 : neqb Rops bknum' (n0 Rops) = neqb Rops bknum (n0 Rops)).
+      { cbn [neqb n0 Rops]. rewrite Ebk. destruct (Reqb' bknum 0) eqn:E1.
+        - apply Reqb_true in E1. rewrite E1. apply Reqb_true. ring.
+        - destruct (Reqb' (c * c * bknum) 0) eqn:E2; [|reflexivity]. apply Reqb_true in E2.
+          assert (bknum = 0) by (destruct (Rmult_integral _ _ E2) as [Hcc|Hb]; [destruct (Rmult_integral _ _ Hcc); contradiction | exact Hb]).
+          apply Reqb_true in H. congruence. }
+      rewrite Eb0. destruct (neqb Rops bknum (n0 Rops));
+        [unfold out_iter, out_err, out_x, out_r; cbn [fst snd]; auto|].
+      set (p1 := if (iter + 1 =? 1)%Z then tabR r else tabR (fun q => nadd Rops (nmul Rops (ndiv Rops bknum bkden) (p q)) (r q))).
+      set (p1' := if (iter + 1 =? 1)%Z then tabR r' else tabR (fun q => nadd Rops (nmul Rops (ndiv Rops bknum' bkden') (p' q)) (r' q))).
+      assert (Hp1 : eqc c p1' p1).
+      { intros q Hq. unfold p1, p1'. destruct (Z.eqb_spec (iter + 1) 1) as [E|E]; rewrite !tab_spec by auto.
+        - apply Hr; auto.
+        - destruct Hp as [I0|[Hp Hb]]; [lia|]. cbn [nadd nmul ndiv Rops]. rewrite Ebk, Hb, div_scal2 by auto.
+          rewrite (Hp q Hq), (Hr q Hq). ring. }
+      set (z := tabR (A p1)). set (z' := tabR (A p1')).
+      assert (Hz : eqc c z' z).
+      { intros q Hq. unfold z, z'. rewrite !tab_spec by auto.
+        rewrite (A_ext p1' (fun q0 => c * p1 q0) q Hq Hp1). apply A_scal; auto. }
+      set (ak := ndiv Rops bknum (vdot Rops P pts z p1)). set (ak' := ndiv Rops bknum' (vdot Rops P pts z' p1')).
+      assert (Eak : ak' = ak).
+      { unfold ak, ak'. cbn [ndiv Rops]. rewrite !vdot_eq, (ip_eqc c z' z p1' p1 Hz Hp1), Ebk. apply div_scal2; auto. }
+      set (x1 := tabR (fun q => nadd Rops (x q) (nmul Rops ak (p1 q)))).
+      set (x1' := tabR (fun q => nadd Rops (x' q) (nmul Rops ak' (p1' q)))).
+      set (r1 := tabR (fun q => nsub Rops (r q) (nmul Rops ak (z q)))).
+      set (r1' := tabR (fun q => nsub Rops (r' q) (nmul Rops ak' (z' q)))).
+      assert (Hx1 : eqc c x1' x1).
+      { intros q Hq. unfold x1, x1'. rewrite !tab_spec by auto. cbn [nadd nmul Rops]. rewrite Eak, (Hx q Hq), (Hp1 q Hq). ring. }
+      assert (Hr1 : eqc c r1' r1).
+      { intros q Hq. unfold r1, r1'. rewrite !tab_spec by auto. cbn [nsub nmul Rops]. rewrite Eak, (Hr q Hq), (Hz q Hq). ring. }
+      assert (Eerr : ndiv Rops (l2norm Rops P pts r1') (Rabs c * bnrm) = ndiv Rops (l2norm Rops P pts r1) bnrm).
+      { cbn [ndiv Rops]. rewrite (norm_ext r1' (fun q => c * r1 q) Hr1), norm_scal. apply div_scal1. apply Rabs_no_R0; auto. }
+      rewrite Eerr.
+      destruct (nleb Rops (ndiv Rops (l2norm Rops P pts r1) bnrm) tol).
+      + unfold out_iter, out_err, out_x, out_r. cbn [fst snd]. auto.
+      + apply IH; auto.
+  Qed.
+
+  Lemma cg_solve_scal c itmax tol bb x0 err0 : c <> 0 ->
+    cg_eps Rops <= norm bb -> cg_eps Rops <= Rabs c * norm bb ->
+    let o := cg_solve Rops P peqb pts A itmax tol bb x0 err0 in
+    let o' := cg_solve Rops P peqb pts A itmax tol (fun q => c * bb q) (fun q => c * x0 q) err0 in
+    out_iter o' = out_iter o /\ out_err o' = out_err o /\ eqc c (out_x o') (out_x o) /\ eqc c (out_r o') (out_r o).
+  Proof.
+    intros Hc H1 H2. cbv zeta. unfold cg_solve.
+    rewrite norm_scal.
+    assert (E1 : nltb Rops (l2norm Rops P pts bb) (cg_eps Rops) = false) by (cbn [nltb Rops]; apply Rltb_false; exact H1).
+    assert (E2 : nltb Rops (Rabs c * l2norm Rops P pts bb) (cg_eps Rops) = false) by (cbn [nltb Rops]; apply Rltb_false; exact H2).
+    rewrite E1, E2.
+    apply cg_loop_scal; auto.
+    - intros q Hq. reflexivity.
+    - intros q Hq. rewrite !tab_spec by auto. cbn [nsub Rops]. rewrite A_scal by auto. ring.
+  Qed.
 
   Hypothesis A_sym : forall x y, ip x (A y) = ip (A x) y.
   Hypothesis A_nsd : forall x, ip x (A x) <= 0.
@@ -1152,6 +1269,7 @@ Section CGProofs.
     - cbn [cg_loop]. unfold out_x. cbn [fst]. lra.
     - cbn [cg_loop].
       set (bknum := vdot Rops P pts r r).
+      destruct (neqb Rops bknum (n0 Rops)) eqn:Eb0; [unfold out_x; cbn [fst]; lra|].
       set (p' := if (iter + 1 =? 1)%Z then tabR r else tabR (fun q => nadd Rops (nmul Rops (ndiv Rops bknum bkden) (p q)) (r q))).
       set (z := tabR (A p')).
       set (ak := ndiv Rops bknum (vdot Rops P pts z p')).
@@ -1228,6 +1346,10 @@ Section CGProofs.
   Proof.
     intros Hres Hpos. cbn [cg_loop]. change (0 + 1 =? 1)%Z with true. cbv iota.
     set (bknum := vdot Rops P pts r r).
+    assert (Eb0 : neqb Rops bknum (n0 Rops) = false).
+    { cbn [neqb n0 Rops]. destruct (Reqb' bknum 0) eqn:E; [|reflexivity]. apply Reqb_true in E.
+      unfold bknum in E. rewrite vdot_eq in E. lra. }
+    rewrite Eb0.
     set (p' := tabR r).
     set (z := tabR (A p')).
     set (ak := ndiv Rops bknum (vdot Rops P pts z p')).
@@ -1325,7 +1447,7 @@ Section Poisson2.
     lsumR D pts = 0 /\
     ((1 <= out_iter _ o)%Z -> out_err _ o <= tol -> nrm (fun p => D p - A (out_x _ o) p) <= tol * nrm D) /\
     ((1 <= out_iter _ o)%Z -> out_err _ o = 0 -> forall p, in_pmf2 sh p -> A (out_x _ o) p = D p) /\
-    ((1 <= out_iter _ o < Z.of_nat itmax)%Z -> out_err _ o <= tol).
+    ((1 <= out_iter _ o < Z.of_nat itmax)%Z -> out_err _ o <= tol \/ out_err _ o = 0).
   Proof.
     intros Hc. cbv zeta. unfold integrate2.
     assert (Hd : forall q, In q pts -> dv2 st q = div_value2 Rops sc sm sh st q)
@@ -1418,7 +1540,7 @@ Section Poisson3.
     lsumR D pts = 0 /\
     ((1 <= out_iter _ o)%Z -> out_err _ o <= tol -> nrm (fun p => D p - A (out_x _ o) p) <= tol * nrm D) /\
     ((1 <= out_iter _ o)%Z -> out_err _ o = 0 -> forall p, in_pmf3 sh p -> A (out_x _ o) p = D p) /\
-    ((1 <= out_iter _ o < Z.of_nat itmax)%Z -> out_err _ o <= tol).
+    ((1 <= out_iter _ o < Z.of_nat itmax)%Z -> out_err _ o <= tol \/ out_err _ o = 0).
   Proof.
     intros Hc. cbv zeta. unfold integrate3.
     assert (Hd : forall q, In q pts -> dv3 st q = div_value3 Rops sc sm sh st q)
@@ -1496,7 +1618,7 @@ Lemma poisson2_history sc sm (sh : shape2 (T:=R)) st0 pre h itmax tol x0 err0 :
   ((1 <= out_iter _ o)%Z -> out_err _ o <= tol ->
      l2norm Rops _ (all_ix2 sh) (fun p => D p - atimes2 Rops sh (out_x _ o) p) <= tol * l2norm Rops _ (all_ix2 sh) D) /\
   ((1 <= out_iter _ o)%Z -> out_err _ o = 0 -> forall p, in_pmf2 sh p -> atimes2 Rops sh (out_x _ o) p = D p) /\
-  ((1 <= out_iter _ o < Z.of_nat itmax)%Z -> out_err _ o <= tol).
+  ((1 <= out_iter _ o < Z.of_nat itmax)%Z -> out_err _ o <= tol \/ out_err _ o = 0).
 Proof.
   intros Hx Hy Hh. apply poisson2; auto. apply run2_consistent; auto. apply set_div2_consistent; auto.
 Qed.
@@ -1510,7 +1632,7 @@ Lemma poisson3_history sc sm (sh : shape3 (T:=R)) st0 pre h itmax tol x0 err0 :
   ((1 <= out_iter _ o)%Z -> out_err _ o <= tol ->
      l2norm Rops _ (all_ix3 sh) (fun p => D p - atimes3 Rops sh (out_x _ o) p) <= tol * l2norm Rops _ (all_ix3 sh) D) /\
   ((1 <= out_iter _ o)%Z -> out_err _ o = 0 -> forall p, in_pmf3 sh p -> atimes3 Rops sh (out_x _ o) p = D p) /\
-  ((1 <= out_iter _ o < Z.of_nat itmax)%Z -> out_err _ o <= tol).
+  ((1 <= out_iter _ o < Z.of_nat itmax)%Z -> out_err _ o <= tol \/ out_err _ o = 0).
 Proof.
   intros Hx Hy Hz Hh. apply poisson3; auto. apply run3_consistent; auto. apply set_div3_consistent; auto.
 Qed.
@@ -1764,3 +1886,65 @@ Section Consistency3.
     repeat split; assumption.
   Qed.
 End Consistency3.
+
+(* ------------------------------------------------------------------ scale covariance of the whole pipeline *)
+Definition scale_st2 (c : R) (st : state2 (T:=R)) : state2 (T:=R) :=
+  mkState2 (fun p => (c * fst (gsum2 st p), c * snd (gsum2 st p))) (gcnt2 st) (fun p => c * dv2 st p).
+Definition scale_st3 (c : R) (st : state3 (T:=R)) : state3 (T:=R) :=
+  mkState3 (fun p => (c * t3x (gsum3 st p), c * t3y (gsum3 st p), c * t3z (gsum3 st p))) (gcnt3 st) (fun p => c * dv3 st p).
+
+Lemma gval2_scal sc sm (sh : shape2 (T:=R)) c st ix :
+  gval2 Rops sc sm sh (scale_st2 c st) ix = (c * fst (gval2 Rops sc sm sh st ix), c * snd (gval2 Rops sc sm sh st ix)).
+Proof.
+  unfold gval2, get_grad2, scale_st2. destruct (wde2 sh ix) as [e ix']. cbn [gsum2 gcnt2 fst snd].
+  destruct e; cbn [fst snd n0 nmul Rops]; f_equal; ring.
+Qed.
+
+Lemma div_value2_scal sc sm (sh : shape2 (T:=R)) c st p :
+  div_value2 Rops sc sm sh (scale_st2 c st) p = c * div_value2 Rops sc sm sh st p.
+Proof.
+  unfold div_value2, div_formula2. rewrite !gval2_scal. cbn [fst snd nadd nsub nmul ndiv Rops]. unfold Rdiv. ring.
+Qed.
+
+Lemma gval3_scal sc sm (sh : shape3 (T:=R)) c st ix :
+  gval3 Rops sc sm sh (scale_st3 c st) ix =
+  (c * t3x (gval3 Rops sc sm sh st ix), c * t3y (gval3 Rops sc sm sh st ix), c * t3z (gval3 Rops sc sm sh st ix)).
+Proof.
+  unfold gval3, get_grad3, scale_st3. destruct (wde3 sh ix) as [e ix']. cbn [gsum3 gcnt3 fst snd].
+  destruct e; unfold t3x, t3y, t3z; cbn [fst snd n0 nmul Rops]; (f_equal; [f_equal|]); ring.
+Qed.
+
+Lemma div_value3_scal sc sm (sh : shape3 (T:=R)) c st p :
+  div_value3 Rops sc sm sh (scale_st3 c st) p = c * div_value3 Rops sc sm sh st p.
+Proof.
+  unfold div_value3, div_formula3. cbv zeta. rewrite !gval3_scal. unfold t3x, t3y, t3z.
+  cbn [fst snd nadd nsub nmul ndiv n1 nofZ Rops]. unfold Rdiv. ring.
+Qed.
+
+Lemma integrate2_scal (sh : shape2 (T:=R)) c itmax tol D x0 err0 : (0 < nxg sh)%Z -> (0 < nyg sh)%Z -> c <> 0 ->
+  cg_eps Rops <= l2norm Rops _ (all_ix2 sh) D -> cg_eps Rops <= Rabs c * l2norm Rops _ (all_ix2 sh) D ->
+  let o := integrate2 Rops sh itmax tol D x0 err0 in
+  let o' := integrate2 Rops sh itmax tol (fun q => c * D q) (fun q => c * x0 q) err0 in
+  out_iter _ o' = out_iter _ o /\ out_err _ o' = out_err _ o /\
+  forall q, in_pmf2 sh q -> out_x _ o' q = c * out_x _ o q.
+Proof.
+  intros Hx Hy Hc H1 H2. cbv zeta. unfold integrate2. destruct (shape_ok2 sh).
+  - destruct (cg_solve_scal _ _ ix2_eqb_eq (all_ix2 sh) (atimes2 Rops sh) (atimes2_linear sh) (A2_ext sh Hx Hy)
+                c itmax tol D x0 err0 Hc H1 H2) as [I1 [I2 [I3 _]]]. cbv zeta in *.
+    repeat split; auto. intros q Hq. apply I3. apply (in_all_ix2 sh); auto.
+  - unfold out_iter, out_err, out_x. cbn [fst snd]. repeat split.
+Qed.
+
+Lemma integrate3_scal (sh : shape3 (T:=R)) c itmax tol D x0 err0 : (0 < mxg sh)%Z -> (0 < myg sh)%Z -> (0 < mzg sh)%Z -> c <> 0 ->
+  cg_eps Rops <= l2norm Rops _ (all_ix3 sh) D -> cg_eps Rops <= Rabs c * l2norm Rops _ (all_ix3 sh) D ->
+  let o := integrate3 Rops sh itmax tol D x0 err0 in
+  let o' := integrate3 Rops sh itmax tol (fun q => c * D q) (fun q => c * x0 q) err0 in
+  out_iter _ o' = out_iter _ o /\ out_err _ o' = out_err _ o /\
+  forall q, in_pmf3 sh q -> out_x _ o' q = c * out_x _ o q.
+Proof.
+  intros Hx Hy Hz Hc H1 H2. cbv zeta. unfold integrate3. destruct (shape_ok3 sh).
+  - destruct (cg_solve_scal _ _ ix3_eqb_eq (all_ix3 sh) (atimes3 Rops sh) (atimes3_linear sh) (A3_ext sh Hx Hy Hz)
+                c itmax tol D x0 err0 Hc H1 H2) as [I1 [I2 [I3 _]]]. cbv zeta in *.
+    repeat split; auto. intros q Hq. apply I3. apply (in_all_ix3 sh); auto.
+  - unfold out_iter, out_err, out_x. cbn [fst snd]. repeat split.
+Qed.
